@@ -131,3 +131,96 @@ Proof.
   split; [vm_compute; constructor|]. split; [repeat constructor; vm_compute; congruence|].
   intros H. vm_compute in H. discriminate.
 Qed.
+
+(** ** grapheme mode with the segmenter inside the model ([segment], UAX29_Model.v): the text's
+    cluster list is [segment s]; "no mixed cluster" is the decidable [no_mixedb s]; SeamStable is
+    a theorem under the decidable [corrupt_safe s] — and exactly there. *)
+From TU Require Import UAX29_Model C10_Seam C14_Seam C14_UAX29.
+
+Theorem corrupt_nonws_u : forall iw dw s ks out,
+  corrupt_cl iw dw (segment s) ks = Some out -> strip_cp (concat out) = strip_cp s.
+Proof. exact corrupt_nonws_u_l. Qed.
+Print Assumptions corrupt_nonws_u.
+
+Theorem corrupt_clean_u : forall iw dw s ks out,
+  C11_Model.cleansb s = true -> no_mixedb s = true -> corrupt_cl iw dw (segment s) ks = Some out ->
+  C11_Model.cleansb (concat out) = true.
+Proof. exact corrupt_clean_u_l. Qed.
+Print Assumptions corrupt_clean_u.
+
+(** labels exist for the clusters that were written (no SeamStable needed at this level) *)
+Theorem corrupt_labels_cl_u : forall iw dw s ks out,
+  C11_Model.cleansb s = true -> no_mixedb s = true -> corrupt_cl iw dw (segment s) ks = Some out ->
+  exists ops, operations out (segment s) = Some ops /\ length ops = length out /\ repair out ops = Some s.
+Proof. exact corrupt_labels_cl_u_l. Qed.
+Print Assumptions corrupt_labels_cl_u.
+
+(** SeamStable: every string the corruption writes for a clean, corrupt-safe text re-segments to
+    the clusters it was built from — every probabilities, every stream *)
+Theorem corrupt_stable_u : forall iw dw s ks out,
+  C11_Model.cleansb s = true -> corrupt_safe s = true ->
+  corrupt_cl iw dw (segment s) ks = Some out -> segment (concat out) = out.
+Proof. exact corrupt_stable_l. Qed.
+Print Assumptions corrupt_stable_u.
+
+(** ... and the condition is exact: for a clean text without mixed clusters, SeamStable for all
+    probabilities and streams holds iff the text is corrupt-safe (the streams (0,1) and (1,0)
+    with all draws 0 already decide it) *)
+Theorem corrupt_stable_iff : forall s,
+  C11_Model.cleansb s = true -> no_mixedb s = true ->
+  (corrupt_safe s = true <->
+   forall iw dw ks out, in_range ks -> corrupt_cl iw dw (segment s) ks = Some out ->
+                        segment (concat out) = out).
+Proof. exact corrupt_stable_iff_l. Qed.
+Print Assumptions corrupt_stable_iff.
+
+(** word boundaries judged by the categories of the two code points only: sufficient *)
+Theorem corrupt_safe_cf_safe : forall s,
+  C11_Model.cleansb s = true -> corrupt_safe_cf s = true -> corrupt_safe s = true.
+Proof. exact corrupt_safe_cf_safe_l. Qed.
+Print Assumptions corrupt_safe_cf_safe.
+
+(** string level, premises on the text alone: for every probabilities and every stream with one
+    draw per character the corrupted input of a clean corrupt-safe text has the same
+    non-whitespace code points, is clean again, and operations / repair on the RE-SEGMENTED
+    input label it and give the text back *)
+Theorem corrupt_labels_u : forall iw dw s ks,
+  C11_Model.cleansb s = true -> corrupt_safe s = true -> (length (segment s) <= length ks)%nat ->
+  exists c, option_map (@concat N) (corrupt_cl iw dw (segment s) ks) = Some c
+    /\ strip_cp c = strip_cp s
+    /\ C11_Model.cleansb c = true
+    /\ exists ops, operations (segment c) (segment s) = Some ops
+                   /\ length ops = length (segment c)
+                   /\ repair (segment c) ops = Some s.
+Proof. exact corrupt_labels_u_l. Qed.
+Print Assumptions corrupt_labels_u.
+
+(** the domain of that theorem and the KF1 class are disjoint *)
+Theorem corrupt_kf1_outside : forall iw dw s ks out,
+  C11_Model.cleansb s = true -> corrupt_safe s = true ->
+  corrupt_cl iw dw (segment s) ks = Some out -> C14_Seam.kf1b s out = false.
+Proof. exact C14_UAX29.kf1_outside_l. Qed.
+Print Assumptions corrupt_kf1_outside.
+
+(** the input built by the model alone (text clusters, clusters of the corrupted text, class
+    flag, safety flag) passes the executable statement, the segmentation clause and the
+    cross-check of [agree] *)
+Theorem check_run_u : forall s seed ks iw dw np ns,
+  corrupt_safe s = true -> (length (segment s) <= length ks)%nat -> in_range ks ->
+  let v := input_of s seed ks iw dw np ns in
+  check_C14 v (run_C14 v) = true /\ C14_Seam.uax29_agree v = true /\ C14_Seam.xcheck v = true.
+Proof. exact check_run_u_l. Qed.
+Print Assumptions check_run_u.
+
+(** non-vacuity: "ab e\u{301}c 🇦🇧 🇨" is clean and corrupt-safe; the KF1 witnesses are not:
+    flag halves (delete), L | V (delete), a ZWSP U+0301 (insert before the mark) *)
+Example corrupt_safe_witness :
+  C11_Model.cleansb [97;98;32;101;769;99;32;127462;127463;32;127464]%N = true
+  /\ corrupt_safe [97;98;32;101;769;99;32;127462;127463;32;127464]%N = true.
+Proof. vm_compute. split; reflexivity. Qed.
+Example kf1_not_corrupt_safe :
+  corrupt_safe [127465;32;127466]%N = false /\ corrupt_safe [4352;32;4449]%N = false
+  /\ no_mixedb [97;8203;769]%N = true /\ corrupt_safe [97;8203;769]%N = false
+  /\ corrupt_cl D53 0 (segment [97;8203;769]%N) [0;0;0]%Z = Some [[97];[32];[8203];[32];[769]]%N
+  /\ segment [97;32;8203;32;769]%N = [[97];[32];[8203];[32;769]]%N.
+Proof. vm_compute. repeat split; reflexivity. Qed.
